@@ -1,5 +1,6 @@
 import SMV.Render
 import SMV.Ops
+import SMV.Core
 /-
   Line protocol of the model driver (not part of any proof): reads one definition per
   line in the prefix format written by /verif/gen, prints the model's front-end dump (T1)
@@ -355,5 +356,37 @@ def infoOf (rest : List String) : List String :=
       | .error e => [s!"#INFO {id}", s!"ERR {e.msg}", "#END"]
       | .ok () => [s!"#INFO {id}"] ++ infoLines m (f == "1") ++ ["#END"]
   | _ => []
+
+end SMV.Driver
+
+/-! ### T5: the core error algebra as a table -/
+namespace SMV.Driver
+open SMV
+
+def guardErrText (e : GuardError) : String :=
+  s!"{Name.toString e.guard}:{Name.toString e.event}:{kindText e.kind}"
+
+def teText (t : Core.TransitionError) : String := s!"{Name.toString t.event}:{kindText t.kind}"
+
+def coreTable : List String :=
+  let names := [Name.lit "alpha", Name.lit "b_2", Name.lit "zz"]
+  let N := Name.toString
+  (names.flatMap fun g => names.flatMap fun e =>
+    [s!"new {N g} {N e} -> {guardErrText (GuardError.new g e)}"] ++
+    (names.flatMap fun kn =>
+      [Kind.invalidTransition, .guardFailed kn, .actionFailed kn].flatMap fun k =>
+        [s!"with_kind {N g} {N e} {kindText k} -> {guardErrText (GuardError.withKind g e k)}",
+         s!"from_guard_error {N g} {N e} {kindText k} -> {dynErrText (DynError.fromGuardError (GuardError.withKind g e k))}"]) ++
+    [s!"te_guard_failed {N e} {N g} -> {teText (Core.TransitionError.guardFailed [] e g)}",
+     s!"te_invalid {N e} -> {teText (Core.TransitionError.invalidTransition [] e)}",
+     s!"abort_guard_expr {N e} {N g} -> abort:{teText (Core.abortGuard [] e g)}"] ++
+    ([Kind.invalidTransition, .guardFailed g, .actionFailed g].map fun k =>
+      s!"abort_with {N e} {kindText k} -> abort:{teText (Core.abortWith [] e k)}") ++
+    [s!"dyn_invalid {N g} {N e} -> {dynErrText (Core.dynInvalid g e)}",
+     s!"dyn_guard {N g} {N e} -> {dynErrText (Core.dynGuard g e)}",
+     s!"dyn_action {N g} {N e} -> {dynErrText (Core.dynAction g e)}"] ++
+    (names.map fun o => s!"dyn_wrong {N g} {N e} {N o} -> {dynErrText (Core.dynWrong g e o)}")) ++
+  [s!"abort_guard_ident alpha zz -> abort:{teText (Core.abortGuard [] (Name.lit "alpha") (Name.lit "zz"))}",
+   s!"abort_guard_ident b_2 alpha -> abort:{teText (Core.abortGuard [] (Name.lit "b_2") (Name.lit "alpha"))}"]
 
 end SMV.Driver
